@@ -8,6 +8,7 @@ import Drv.Linear
 import Drv.FA
 import Drv.Own
 import Drv.Rng
+import Drv.Sched
 open Lean Drv
 
 def dispatch (j : Json) : Json :=
@@ -30,6 +31,7 @@ def dispatch (j : Json) : Json :=
   | "fa_score" => opFaScore j
   | "own_check" => opOwnCheck j
   | "rng_keys" => opRngKeys j
+  | "sched_check" => opSchedCheck j
   | "kmeans_dist" => opKMeansDist j
   | "kmeans_vw" => opKMeansVW j
   | op => obj [("err", Json.str s!"bad-op {op}")]
